@@ -55,7 +55,7 @@ std::string simCase(const vio::Case &c) {
     std::string key = "fin" + std::to_string(k);
     if (c.has(key.c_str())) { world.fileIn[k] = c.str(key.c_str()); world.fileInPresent[k] = true; }
   }
-  long words = ref.loadImage(c.str("file"));
+  long words = ref.loadImage(c.str("file"), true);
   mon.imageWords = words > 0 ? (uint32_t)words : 0;
   std::string ended, mismatch;
   uint64_t cycles = 0;
